@@ -50,9 +50,10 @@ const (
 	SpRenamedImp               // import dd "ex.com/m/d"; dd.T   (u only)
 	SpParen                    // (T) / (d.T) where a parenthesised type is admissible
 	SpPtrAlias                 // type APT = *d.T used where a pointer is written
+	SpDotImport                // import . "ex.com/m/d"; T   (importing packages of the use universe only)
 )
 
-var SpellNames = []string{"direct", "local-alias", "third-pkg-alias", "renamed-import", "paren", "ptr-alias"}
+var SpellNames = []string{"direct", "local-alias", "third-pkg-alias", "renamed-import", "paren", "ptr-alias", "dot-import"}
 
 // EnclKind is the kind of top-level declaration that encloses a group of sites.
 type EnclKind int
